@@ -346,7 +346,13 @@ func exec(c Case) (vh.Outcome, error) {
 			// the validity that counts is the certificate's own window where it is shorter than the configured one
 			need := checkValidity
 			if a.Certificate != nil && a.Certificate.ValidBefore > a.Certificate.ValidAfter {
-				if w := a.Certificate.ValidBefore - uint64(time.Now().Unix()); a.Certificate.ValidBefore < 1<<62 && w < need {
+				w := a.Certificate.ValidBefore - uint64(time.Now().Unix())
+				if a.Certificate.ValidBefore < 1<<62 && w < need {
+					need = w
+				}
+				// a CA that stamps exactly the window it was asked for: the certificate's remaining validity is what
+				// the RA itself requested, so the lifetime covers it whatever the configuration says
+				if r.Window == "" && a.Certificate.ValidBefore < 1<<62 && w > need {
 					need = w
 				}
 			}
@@ -462,7 +468,7 @@ func equal(a, b []string) bool {
 	return true
 }
 
-const rule = "histories against one recording keyring agent: 0..5 pre-existing identities (plain RSA / ECDSA / Ed25519 keys and foreign certificates whose comments are near-misses of the handler label: other case, truncation, '-' for '.', missing first letter, 'private-key', empty, non-ASCII; comments containing the exact handler name are not generated; two thirds of the foreign certificates carry a key identifier in the RA's own format - the regular handler's attribute combination for the same or another user, or hardware / firefighter / nonce / SSH-only ones -, as another deployment would issue), then 1..6 runs - of the real handler (a third of the later ones through the handler object and forwarded connection an earlier run built, class handler-object-reused), or (a quarter) of a harness handler whose one agent key (the repository's AgentKey) carries 2..3 signing requests, with the key-pair algorithm (default, RSA-2048, rarely RSA-4096, P-256 / 384 / 521, Ed25519) and the private-key label drawn - each succeeding or failing {agent refuses the challenge / handler rejects, no key slot configured, CA error - for several requests: on the last one, after the earlier ones were signed -, the agent refusing to remove an identity of the previous generation, the agent refusing one certificate insertion, a CA that answers 300 ms after the caller's context ended (late success, or a failure after which the agent is looked at 700 ms later)}, the CA returning 1..3 (one run in 30: 8 / 16 / 20) certificates (validity window as requested, or without expiry, or valid until 2^63 s, or stamped by a CA clock 90 s ahead, or the first certificate of a reply valid for 5 minutes only; a sixth of the replies also carry a plain public key - the CA's own key line - in front of, between or behind the certificates) with 0..n+1 comments (present / empty / containing the handler name), validity from {1, 2, 3599, 3600, 43200, 2^31, 315360000} or random in 1 s..10 y, the handler's 'key_label' option left out or set (the default, another text, the handler name, a text with a space). Oracle after a successful run: the new private key and every returned certificate are listed, signing with each certificate yields a signature verifying under its key, every AddedKey the agent received has 0 < lifetime and lifetime >= validity, the run allocated no more than 64 MiB + 1 MiB per returned certificate, certificates of the earlier generation are absent, the certificate set is exactly foreign + this generation, every pre-existing identity is present with identical blob and comment; after a failing run the certificate set is unchanged. Non-trivial: >= 2 successful runs or a failure after a success, with >= 1 pre-existing identity."
+const rule = "histories against one recording keyring agent: 0..5 pre-existing identities (plain RSA / ECDSA / Ed25519 keys and foreign certificates whose comments are near-misses of the handler label: other case, truncation, '-' for '.', missing first letter, 'private-key', empty, non-ASCII; comments containing the exact handler name are not generated; two thirds of the foreign certificates carry a key identifier in the RA's own format - the regular handler's attribute combination for the same or another user, or hardware / firefighter / nonce / SSH-only ones -, as another deployment would issue), then 1..6 runs - of the real handler (a third of the later ones through the handler object and forwarded connection an earlier run built, class handler-object-reused), or (a quarter) of a harness handler whose one agent key (the repository's AgentKey) carries 2..3 signing requests, with the key-pair algorithm (default, RSA-2048, rarely RSA-4096, P-256 / 384 / 521, Ed25519) and the private-key label drawn - each succeeding or failing {agent refuses the challenge / handler rejects, no key slot configured, CA error - for several requests: on the last one, after the earlier ones were signed -, the agent refusing to remove an identity of the previous generation, the agent refusing one certificate insertion, a CA that answers 300 ms after the caller's context ended (late success, or a failure after which the agent is looked at 700 ms later)}, the CA returning 1..3 (one run in 30: 8 / 16 / 20) certificates (validity window as requested, or without expiry, or valid until 2^63 s, or stamped by a CA clock 90 s ahead, or the first certificate of a reply valid for 5 minutes only; a sixth of the replies also carry a plain public key - the CA's own key line - in front of, between or behind the certificates) with 0..n+1 comments (present / empty / containing the handler name), validity from {1, 2, 3599, 3600, 43200, 2^31, 315360000} or random in 1 s..10 y, the handler's 'key_label' option left out or set (the default, another text, the handler name, a text with a space). Oracle after a successful run: the new private key and every returned certificate are listed, signing with each certificate yields a signature verifying under its key, every AddedKey the agent received has 0 < lifetime and lifetime >= validity (the configured one, and - when the CA stamps exactly the requested window - the remaining validity of the certificate it carries), the run allocated no more than 64 MiB + 1 MiB per returned certificate, certificates of the earlier generation are absent, the certificate set is exactly foreign + this generation, every pre-existing identity is present with identical blob and comment; after a failing run the certificate set is unchanged. Non-trivial: >= 2 successful runs or a failure after a success, with >= 1 pre-existing identity."
 
 func TestC03Provision(t *testing.T) {
 	vh.Run(t, vh.Spec[Case]{Property: "C03", Name: "TestC03Provision", Rule: rule, Gen: gen, Exec: exec})
